@@ -339,7 +339,11 @@ impl FromStr for StatusCode {
     type Err = InvalidStatusCode;
 
     fn from_str(s: &str) -> Result<Self, Self::Err> {
-        Ok(Self(s.parse().map_err(|_| InvalidStatusCode)?))
+        if !s.bytes().all(|b| b.is_ascii_digit()) {
+            return Err(InvalidStatusCode);
+        }
+
+        s.parse::<u16>().map_err(|_| InvalidStatusCode)?.try_into()
     }
 }
 
